@@ -397,7 +397,7 @@ def run_strace_case(ctx, case):
         raise AssertionError("scenario set-up failed: %r %r" % (st, v))
     pre = crash.snap(root)
     if case["farmer"] == "harvester":
-        paths = [os.path.join(root, "harvest.h5"), os.path.join(root, "harvest.h5.tmp")]
+        paths = [os.path.join(root, "harvest.h5"), os.path.join(root, "harvest.tmp.h5"), os.path.join(root, "harvest.h5.tmp")]
     else:
         paths = [os.path.join(root, "samples.pkl"), os.path.join(root, ".tmp-samples.pkl")]
     spec = os.path.join(side, "spec.json")
